@@ -8,3 +8,4 @@ C06 — Hidden-surface removal is independent of submission order.
 -/
 import Retro.Props.C06.Pixel
 import Retro.Props.C06.Buffer
+import Retro.Props.C06.Painter
